@@ -49,7 +49,7 @@ def replay(ctx, graph, label, cfg, extra, timeout=3600):
         "actions": R["action_counts"], "wall_s": round(R["wall_s"], 1)}
     for s in (R.get("samples") or [])[:1]:
         ctx.sample({"replayed_walk": s})
-    for m in R.get("mismatches") or []:
+    for m in (R.get("mismatches") or [])[:1]:   # (walks still running on other workers may add more of the same)
         what = ("replayed TLC behaviour (%s, %s): after step %d `%s` the real nsqlookupd differs from the registry model in %s%s; "
                 "history: %s" % (label, m["regime"], m["step"], m["action"], ", ".join(m.get("queries") or [m["kind"]]),
                                  (" -- " + m["detail"]) if m.get("detail") else "", " ; ".join(m["history"][-12:])))
